@@ -13,7 +13,9 @@ CONSTANTS Kinds, MaxFull, MaxCore, MaxTiny, MaxLref, MutFams, NChunks, MutEvery,
 FullAlpha == <<"1", "2.5", ".5", "5.", "'s'", "\"d\"", "a", "b", "p:a", "p:*", "zz:a", "not", "concat", "true", "substring",
                "string-length", "count", "current", "deref", "nosuch", "node", "text", "comment", "and", "or", "div", "mod",
                "child", "self", "::", "*", "/", "//", ".", "..", "(", ")", "[", "]", ",", "|", "-", "+", "=", "!=", "<", "<=",
-               ">", ">=", "@", "$", "!", "#", "1.2.3">>
+               ">", ">=", "@", "$", "!", "#", "1.2.3",
+               \* prefixed names whose local half is no NCName (a digit, '-' or '.' first)
+               "p:1", "p:-a", "p:.x">>
 CoreAlpha == <<"1", "'s'", "a", "p:a", "not", "concat", "current", "and", "div", "*", "/", ".", "..", "(", ")", "[", "]", ",", "-", "=", "<">>
 TinyAlpha == <<"1", "a", "and", "*", "/", "(", ")", "[", "]", "-", "=", "not">>
 LrefAlpha == <<"a", "p:b", "zz:c", "current", "/", "..", "[", "]", "=", "(", ")", ".", "*", "1", "'s'", "//">>
